@@ -3,6 +3,8 @@ from __future__ import annotations
 
 import itertools
 import math
+from decimal import Decimal
+from fractions import Fraction
 
 import numpy as np
 
@@ -29,7 +31,13 @@ RULE = (
     "One case in two carries a SECOND decision matrix that goes through the SAME transformer objects / pipeline object after the first: "
     "identical criteria labels and dtypes, objectives flipped on a random non-empty subset of the criteria, the same cells (1/3, "
     "dm.copy(objectives=...)) or other cells, weights and alternatives (2/3), inside the sign domain of the pipeline as well; each "
-    "output is judged against its own input. Thorough adds (c) the exhaustive set: every matrix of shape "
+    "output is judged against its own input. (d) TINY SCALED VALUES (arbitrary doubles, 120 quick): MinMaxScaler / StandarScaler / "
+    "MaxAbsScaler (scikit-learn backed) and SumScaler / VectorScaler, every configuration and target cycled, on a matrix whose criteria "
+    "(target matrix / both) and / or weight vector (target weights / both) hold 2..3 cells whose SCALED values are pairwise distinct - "
+    "3e-9 .. 2e-8 of the output scale apart - and all within a few 1e-8 of 0 (tiny positive values under MaxAbs / Sum / Vector; next to "
+    "the mean, or next to 0 without centring, under StandarScaler; next to the pre-image of 0 under a MinMaxScaler range that holds 0) "
+    "or of the lower end of the range; one member at times exactly on the point (the minimum itself); the scaler alone (2/3) or followed "
+    "by 1..2 further steps (1/3). Thorough adds (c) the exhaustive set: every matrix of shape "
     "<= 3 x 2 over {-1,0,1,2} ({1,2} for the positive-data transformers) x every objective vector x every transformer, and again "
     "with ALL criteria int64 (and, two criteria, int64 next to float64): {1,2,3} for the positive-data transformers up to 3 x 2, "
     "{-1,0,1,2} up to 4 cells. "
@@ -39,15 +47,21 @@ RULE = (
 )
 ASSUMPTIONS = [
     "dyadic family (eighths) and the exhaustive alphabet: signs must agree exactly; arbitrary doubles: a strict preference that becomes an "
-    "equality is counted as 'merged by rounding' (pairs touched by a merge are left out of the dominance comparison), a reversal or a new "
-    "strict preference out of an equality is a violation in every family",
+    "equality is excused as 'merged by rounding' (pairs touched by a merge are left out of the dominance comparison) ONLY when the EXACT "
+    "transformed values of the two alternatives (every step of the pipeline evaluated in Fraction arithmetic, square roots to 60 digits, "
+    "from the documented formulas) are within the rounding margins of the two outputs, 2 x 1e-9 x scale with scale = max(1, largest exact "
+    "magnitude of the transformed criterion), or when the two INPUT cells are near-ties (apart by < 2^-40 of their own magnitude, or "
+    "<= 4 doubles: the neighbouring doubles the generator plants; a criterion made of those alone has a range of a few ulps and what "
+    "becomes of it is conditioning, e.g. [0.0, 5e-324]); otherwise the equality is a violation (a tie was manufactured). A reversal or a "
+    "new strict preference out of an equality is a violation in every family",
     "sign domains are tracked abstractly (positive / non-negative / any) through a sequence; a step is only drawn when its domain holds",
     "dyadic criteria are either exactly constant or clearly non-constant (DESIGN section 14); the float family also holds near-ties "
     "(neighbouring doubles) on purpose: there scikit-learn's near-constant thresholds may replace a scale by 1, which changes the scale "
     "only, never the order, and only dominance tables (not cells) are compared with the model",
 ]
 PARTIAL = ("rounding can merge two distinct values into one (strict becomes equal); reported separately as 'merged by rounding', never as "
-           "reversal. The model is exact (Rat) except for VectorScaler / StandarScaler pipelines, which run at Lean Float")
+           "reversal, and only for values whose exact images are within the rounding margin (or near-tie inputs). The order of the WEIGHTS "
+           "is not part of the property: weights targets are exercised (domain, finiteness, model) but a tie among weights is not judged. The model is exact (Rat) except for VectorScaler / StandarScaler pipelines, which run at Lean Float")
 EXHAUSTIVE = True
 TRUSTED = c11.TRUSTED
 
@@ -320,6 +334,135 @@ def sequence_case(rng, by_name, chained=False):
     return finish(rng, "chain" if chained else "seq", dm, steps, positive, wpositive)
 
 
+# ----------------------------------------------------------------------------- scaled values that are distinct but tiny
+
+# the scalers whose output can hold distinct values that are tiny next to the output scale (1, or the configured range)
+TINY_NAMES = ["MinMaxScaler", "StandarScaler", "MaxAbsScaler", "MinMaxScaler", "StandarScaler", "MaxAbsScaler", "SumScaler",
+              "VectorScaler"]
+SCALE_FREE = ("MaxAbsScaler", "SumScaler", "VectorScaler")
+
+
+def _cluster_column(rng, step, col):
+    """rewrite 2..3 cells of a column (or of the weight vector) of arbitrary doubles so that their SCALED values are pairwise
+    distinct - 3e-9 .. 2e-8 of the output scale apart, clearly more than the rounding margin - while all lie within a few 1e-8 of
+    one point of the output: 0 where the scaler can reach it (MaxAbsScaler / SumScaler / VectorScaler: tiny positive values;
+    StandarScaler: next to the mean / next to 0; MinMaxScaler: next to the pre-image of 0 when the range holds 0) and the lower
+    end of the range otherwise.  The other cells (the frame: they fix minimum, maximum, mean, deviation) stay.  None if the column
+    cannot hold such a cluster"""
+    name, params = step["name"], step["params"]
+    k = len(col)
+    c = rng.choice([2, 2, 3]) if k >= 5 else 2
+    idx = rng.sample(range(k), c)
+    frame = [col[i] for i in range(k) if i not in idx]
+    if len(set(frame)) < 2:
+        return None
+    mn, mx = min(frame), max(frame)
+    signs = [1] * c
+    outscale = 1.0
+    if name == "MinMaxScaler":
+        lo, hi = params["lo"], params["hi"]
+        outscale = max(1.0, abs(lo), abs(hi))
+        slope = (mx - mn) / (hi - lo)
+        if lo < 0 < hi:
+            x0, signs = mn + (0 - lo) * slope, [rng.choice([1, -1]) for _ in range(c)]
+        elif hi == 0:
+            x0, signs = mx, [-1] * c
+        else:
+            x0 = mn  # lo >= 0: the values land just above the lower end of the range (above 0 when lo == 0)
+    elif name in SCALE_FREE:
+        x0 = 0.0
+        slope = {"MaxAbsScaler": mx, "SumScaler": sum(frame), "VectorScaler": math.sqrt(sum(v * v for v in frame))}[name]
+    elif name == "StandarScaler":
+        x0 = sum(frame) / len(frame) if params["with_mean"] else 0.0
+        full = frame + [x0] * c
+        mu = sum(full) / k
+        slope = math.sqrt(sum((v - mu) ** 2 for v in full) / k) if params["with_std"] else 1.0
+        if not params["with_std"]:
+            outscale = max(1.0, max(abs(v - (mu if params["with_mean"] else 0.0)) for v in full))
+        if params["with_mean"] or min(col) < 0:
+            signs = [rng.choice([1, -1]) for _ in range(c)]
+    else:
+        return None
+    if not slope > 0:
+        return None
+    y, ys = rng.uniform(0.3e-9, 6e-9), []
+    for _ in range(c):
+        ys.append(y)
+        y += 10 ** rng.uniform(-8.5, -7.7)
+    if x0 != 0.0 and rng.random() < 0.3:
+        ys[0] = 0.0  # one member sits exactly on the point
+    out = list(col)
+    for i, yy, sg in zip(idx, ys, signs):
+        out[i] = x0 + sg * yy * outscale * slope
+    return out
+
+
+def _cluster_ok(step, before, after):
+    """the rewritten cells are what they are meant to be, judged on the EXACT scaled values: pairwise further apart than the
+    rounding margin (and than 3e-9 of the output scale), far from being neighbouring doubles on the input side"""
+    changed = [i for i in range(len(before)) if before[i] != after[i]]
+    if len(changed) < 2 or len({after[i] for i in changed}) < len(changed):
+        return False
+    E = exact_part(step["name"], step["params"], [C.F(v) for v in after])
+    scale = max([Fraction(1)] + [abs(e) for e in E])
+    for a, b in itertools.combinations(changed, 2):
+        if abs(E[a] - E[b]) <= Fraction(3, 10 ** 9) * scale or near_tie(after[a], after[b]):
+            return False
+    return True
+
+
+def tiny_case(rng, cfg, by_name):
+    """a decision matrix of arbitrary doubles in which some criteria (target matrix / both) and / or the weight vector (target
+    weights / both) hold a cluster of cells whose scaled values are distinct but tiny (see _cluster_column), the scaler alone (2/3)
+    or followed by 1..2 more steps drawn as in sequence_case (1/3)"""
+    step = concrete(rng, cfg)
+    needs_pos = step["name"] in POS_ONLY
+    for _ in range(60):
+        m, n = rng.randint(4, 8), rng.randint(4, 5)
+        positive = needs_pos or rng.random() < 0.5
+        objs = G.objectives(rng, n, rng.choice(["mixed", "mixed", "mixed", "min", "max"]))
+        A = G.matrix(rng, m, n, "float", positive=positive, ties=0.15, dups=0.0, dominated=0.2, objs=objs)
+        w = G.weights(rng, n, "float")
+        done = 0
+        if step["target"] in ("matrix", "both"):
+            cols = [j for j in range(n) if rng.random() < 0.6] or [rng.randrange(n)]
+            for j in cols:
+                col = [A[i][j] for i in range(m)]
+                new = _cluster_column(rng, step, col)
+                if new is not None and _cluster_ok(step, col, new):
+                    for i in range(m):
+                        A[i][j] = new[i]
+                    done += 1
+        if step["target"] in ("weights", "both"):
+            new = _cluster_column(rng, step, w)
+            if new is not None and _cluster_ok(step, w, new):
+                w, done = new, done + 1
+        if not done:
+            continue
+        if needs_pos and (min(v for r in A for v in r) <= 0 or min(w) <= 0):
+            continue
+        dm = {"matrix": A, "objectives": objs, "weights": w, "alternatives": G.labels(rng, G.LABEL_POOL_ALT, m),
+              "criteria": G.labels(rng, G.LABEL_POOL_CRIT, n), "family": "float", "dtypes": ["float"] * n}
+        if not domain_ok([step], dm):
+            continue
+        steps = [step]
+        if rng.random() < 1 / 3:
+            mst, wst, o = advance(step, state_of([v for r in A for v in r]), state_of(w), list(objs))
+            names = sorted(by_name)
+            for _ in range(rng.randint(1, 2)):
+                for _try in range(50):
+                    nm, target, params = nxt = rng.choice(by_name[rng.choice(names)])
+                    if target in allowed_targets(nm, mst, wst):
+                        break
+                else:
+                    break
+                st = concrete(rng, nxt)
+                steps.append(st)
+                mst, wst, o = advance(st, mst, wst, o)
+        return finish(rng, "tiny", dm, steps, positive, min(w) > 0)
+    return None
+
+
 EXH_ANY = [
     {"name": "MinMaxScaler", "target": "matrix", "params": {"lo": 0.0, "hi": 1.0, "clip": False}},
     {"name": "MinMaxScaler", "target": "both", "params": {"lo": -1.0, "hi": 2.0, "clip": True}},
@@ -383,6 +526,11 @@ def gen(ctx):
         cases.append(single_case(rng, lst[(i // len(names)) % len(lst)]))
     for i in range(ctx.n(210, 3600)):
         cases.append(sequence_case(rng, by_name, chained=i % 3 == 2))
+    for i in range(ctx.n(120, 1600)):
+        lst = by_name[TINY_NAMES[i % len(TINY_NAMES)]]
+        case = tiny_case(rng, lst[(i // len(TINY_NAMES)) % len(lst)], by_name)
+        if case is not None:
+            cases.append(case)
     if ctx.thorough:
         cases += exhaustive_cases()
     return cases
@@ -487,6 +635,100 @@ def requests(case, obs):
     return reqs
 
 
+# ----------------------------------------------------------------------------- exact transformed values (Fraction / 60-digit Decimal)
+
+MARGIN = Fraction(1, 10 ** 9)  # the rounding margin of one output value, relative to the scale of the output
+
+
+def _sqrt(q):
+    return Fraction(c11.D(q).sqrt())
+
+
+def exact_part(name, params, x):
+    """the documented formula of a transformer on ONE criterion (or on the weight vector), in exact arithmetic (square roots to
+    60 digits): list of Fractions -> list of Fractions.  Written from the documentation, as c11.normal_form"""
+    k = len(x)
+    if name == "SumScaler":
+        s = sum(x)
+        return [v / s for v in x]
+    if name == "VectorScaler":
+        nrm = _sqrt(sum(v * v for v in x))
+        return [v / nrm for v in x]
+    if name == "MaxAbsScaler":
+        mx = max(abs(v) for v in x)
+        return [v / mx for v in x]
+    if name == "MinMaxScaler":
+        lo, hi = C.F(params["lo"]), C.F(params["hi"])
+        mn, mx = min(x), max(x)
+        if mx == mn:
+            return [lo] * k
+        return [(v - mn) / (mx - mn) * (hi - lo) + lo for v in x]
+    if name == "StandarScaler":
+        mean = sum(x) / k
+        var = sum((v - mean) ** 2 for v in x) / k
+        u = mean if params["with_mean"] else 0
+        s = _sqrt(var) if params["with_std"] and var > 0 else 1
+        return [(v - u) / s for v in x]
+    if name == "PushNegatives":
+        mn = min(x)
+        return [v - mn for v in x] if mn < 0 else list(x)
+    if name == "AddValueToZero":
+        return [v + C.F(params["value"]) for v in x] if any(v == 0 for v in x) else list(x)
+    raise ValueError(name)
+
+
+def exact_matrix(dm, pipe):
+    """the matrix of a decision matrix after the steps of a pipeline, every step evaluated exactly on the exact output of the
+    one before (rows of Fractions)"""
+    cols = [[C.F(r[j]) for r in dm["matrix"]] for j in range(len(dm["objectives"]))]
+    objs = list(dm["objectives"])
+    for st in pipe:
+        name = st["name"]
+        if name == "NegateMinimize":
+            cols = [[-v for v in c] if o == -1 else c for c, o in zip(cols, objs)]
+            objs = [1] * len(objs)
+        elif name == "InvertMinimize":
+            cols = [[1 / v for v in c] if o == -1 else c for c, o in zip(cols, objs)]
+            objs = [1] * len(objs)
+        elif st["target"] in ("matrix", "both"):
+            cols = [exact_part(name, st["params"], c) for c in cols]
+    return [[c[i] for c in cols] for i in range(len(dm["matrix"]))]
+
+
+def near_tie(a, b):
+    """two input cells that are (almost) neighbouring doubles: apart by less than 2^-40 of their own magnitude.  What becomes of
+    such a pair is a matter of floating-point conditioning (a criterion made of near-ties alone has a range of a few ulps)"""
+    if abs(a - b) <= math.ldexp(max(abs(a), abs(b)), -40):
+        return True
+    x = a
+    for _ in range(4):  # next to 0 the relative test is empty (0.0 and the smallest subnormal): count the doubles in between
+        x = math.nextafter(x, b)
+        if x == b:
+            return True
+    return False
+
+
+def manufactured(dm, pipe, merged):
+    """of the (criterion, a, b) whose strict preference became an equality, those that rounding does NOT excuse: the EXACT
+    transformed values of the two alternatives differ by more than the rounding margins of the two outputs together
+    (2 x 1e-9 x scale, scale = max(1, largest exact magnitude of the transformed criterion)) although the two inputs are not
+    near-ties.  Returns [(j, a, b, exact_a, exact_b, scale)]"""
+    A = dm["matrix"]
+    cand = [(j, a, b) for j, a, b in merged if not near_tie(A[a][j], A[b][j])]
+    if not cand:
+        return []
+    try:
+        E = exact_matrix(dm, pipe)
+    except ZeroDivisionError:  # the exact pipeline leaves the domain where the floating-point one does not (1 / exact 0)
+        return []
+    out = []
+    for j, a, b in cand:
+        scale = max([Fraction(1)] + [abs(r[j]) for r in E])
+        if abs(E[a][j] - E[b][j]) > 2 * MARGIN * scale:
+            out.append((j, a, b, E[a][j], E[b][j], scale))
+    return out
+
+
 # ----------------------------------------------------------------------------- the property
 
 
@@ -566,6 +808,14 @@ def judge(case, obs, replies):
             j, a, b = merged[0]
             prop(f"{label}: a strict preference became an equality on exactly representable data",
                  {"criterion": j, "pair": [a, b], "before": [A[a][j], A[b][j]]}, {"after": [Y[a][j], Y[b][j]]})
+        if merged and not exact_family:
+            made = manufactured(dms[which], pipe, merged)
+            if made:
+                j, a, b, ea, eb, sc = made[0]
+                prop(f"{label}: a strict preference became an EQUALITY although the exact transformed values differ by more than the "
+                     "rounding margin (a tie was manufactured)",
+                     {"criterion": j, "pair": [a, b], "before": [A[a][j], A[b][j]], "exact_after": [float(ea), float(eb)],
+                      "margin": float(2 * MARGIN * sc)}, {"after": [Y[a][j], Y[b][j]]})
         skip = {(a, b) for _, a, b in merged} | {(b, a) for _, a, b in merged}
         for k, strict in enumerate((False, True)):
             before, after = before_all[which][k], run["after"][k]
@@ -638,6 +888,8 @@ def tags(case, obs):
                 rev, born, merged = compare_signs(d["matrix"], d["objectives"], run["matrix"], run["objectives"])
                 if merged:
                     t.append("merged-by-rounding")
+                    t.append("merged:" + ("all-near-ties-on-input" if all(near_tie(d["matrix"][a][j], d["matrix"][b][j])
+                                                                          for j, a, b in merged) else "some-pair-not-a-near-tie-on-input"))
         if any(any(r) for r in obs["before"][0]):
             t.append("has-dominance")
         if any(any(r) for r in obs["before"][1]):
